@@ -32,7 +32,8 @@ pub fn canon(sim: &Sim) -> String {
     for t in &snap.tokens {
         let _ = write!(s, "T{}[c{} q{:?} i", t.token, t.connecting as u8, t.waiters_closed);
         for i in &t.idle {
-            let age_half = (i.age.as_millis() as u64 * 2) / sim.cfg.t_ms;
+            // age class: halves of T (quarters when the configuration has the 3T/4 tick)
+            let age_half = (i.age.as_millis() as u64 * if sim.cfg.fine_ticks { 4 } else { 2 }) / sim.cfg.t_ms;
             let _ = write!(s, "({},{},{},{})", i.conn, i.open as u8, i.shareable as u8, age_half);
         }
         s.push(']');
@@ -87,7 +88,46 @@ pub fn canon(sim: &Sim) -> String {
         let _ = write!(s, "|t{i}:{}:{}:w{}p{}:{:?}", b.kind(), b.task.is_some() as u8, b.flag.0.load(Ordering::SeqCst) as u8, b.polled as u8, b.spawned_by);
     }
     let _ = write!(s, "|clk{}t{}|pan{}", sim.clock_half_t, sim.ticks_used, sim.panicked.is_some() as u8);
+    // Everything the pool's own (derived) Debug shows, with instants rewritten relative to the frozen
+    // clock. The snapshot hook above lists the fields the oracles read; this catches state the hook
+    // does not know about (a field added to a pool structure is part of the state at once, so two
+    // histories that differ only in it are not merged).
+    let _ = write!(s, "|dbg{}", normalise_instants(&format!("{:?}", sim.svc)));
     s
+}
+
+fn parse_instant(text: &str) -> Option<(i128, usize)> {
+    // "Instant { tv_sec: 123, tv_nsec: 456 }" -> nanoseconds, length consumed
+    let rest = text.strip_prefix("Instant { tv_sec: ")?;
+    let (sec, rest2) = rest.split_once(", tv_nsec: ")?;
+    let (nsec, _) = rest2.split_once(" }")?;
+    let consumed = "Instant { tv_sec: ".len() + sec.len() + ", tv_nsec: ".len() + nsec.len() + " }".len();
+    Some((sec.parse::<i128>().ok()? * 1_000_000_000 + nsec.parse::<i128>().ok()?, consumed))
+}
+
+/// Rewrite every `Instant { .. }` in a Debug text as milliseconds since the frozen pool clock's origin.
+pub fn normalise_instants(text: &str) -> String {
+    let base = hyperdriver::verif_hooks::clock_state().0.and_then(|b| parse_instant(&format!("{b:?}")).map(|x| x.0));
+    let mut out = String::with_capacity(text.len());
+    let mut rest = text;
+    while let Some(pos) = rest.find("Instant { tv_sec: ") {
+        out.push_str(&rest[..pos]);
+        match parse_instant(&rest[pos..]) {
+            Some((ns, used)) => {
+                match base {
+                    Some(b) => out.push_str(&format!("t+{}ms", (ns - b) / 1_000_000)),
+                    None => out.push_str("t?"),
+                }
+                rest = &rest[pos + used..];
+            }
+            None => {
+                out.push_str("Instant");
+                rest = &rest[pos + "Instant".len()..];
+            }
+        }
+    }
+    out.push_str(rest);
+    out
 }
 
 #[derive(Clone, Debug)]
